@@ -12,6 +12,8 @@ package netw
 import (
 	"fmt"
 	"net/http"
+	"os"
+	"path/filepath"
 	"strings"
 	"sync"
 	"testing"
@@ -31,6 +33,24 @@ var (
 	c17aUp   *upstreamSrv
 	c17aCl   *http.Client
 )
+
+var (
+	c17aDirOnce sync.Once
+	c17aDir     string
+)
+
+// c17aBadgerDir: a directory of this test process for badger stores (removed by the driver
+// together with the process's working directory)
+func c17aBadgerDir() string {
+	c17aDirOnce.Do(func() {
+		d, err := os.MkdirTemp(".", "c17-badger-")
+		if err != nil {
+			d = "c17-badger"
+		}
+		c17aDir, _ = filepath.Abs(d)
+	})
+	return c17aDir
+}
 
 var c17aNames = []string{"n1", "yes", "null", "~", "a: b", "- x", "#c", " lead", "trail ", "名字", "on", "123", "x", "abcdefghijklmnopqrst", "{a}", "[b]", "a,b", "%p", "*alias", "|", "key: 'v'", "a/b", "a b", "A", "a"}
 
@@ -54,7 +74,11 @@ func genC17a(t *rapid.T) c17aScenario {
 		c.Compresses = append(c.Compresses, config.CompressConfig{Name: n, Levels: map[string]uint{"gzip": 5, "br": 4}})
 	}
 	for _, n := range c17aUnique(t, rapid.IntRange(1, 3).Draw(t, "nCaches"), "cache") {
-		c.Caches = append(c.Caches, config.CacheConfig{Name: n, Size: rapid.SampledFrom([]int{1, 3, 8, 1000}).Draw(t, "size"), HitForPass: rapid.SampledFrom([]string{"5m", "0s", "1s"}).Draw(t, "hfp")})
+		cc := config.CacheConfig{Name: n, Size: rapid.SampledFrom([]int{1, 3, 8, 1000}).Draw(t, "size"), HitForPass: rapid.SampledFrom([]string{"5m", "0s", "1s"}).Draw(t, "hfp")}
+		// stores: none; a badger directory (BADGER stands for a directory of the test process, two
+		// spellings of the same one); one that validates but cannot be opened; an unreachable redis
+		cc.Store = rapid.SampledFrom([]string{"", "", "", "badger://BADGER/a", "badger://BADGER/a/", "badger://BADGER/b", "badger:///dev/null/verif-c17/x", "redis://127.0.0.1:1/?timeout=200ms"}).Draw(t, "store")
+		c.Caches = append(c.Caches, cc)
 	}
 	for _, n := range c17aUnique(t, rapid.IntRange(1, 3).Draw(t, "nUpstreams"), "upstream") {
 		c.Upstreams = append(c.Upstreams, config.UpstreamConfig{Name: n, Policy: rapid.SampledFrom([]string{"", "first", "random", "roundRobin", "leastconn"}).Draw(t, "policy"),
@@ -108,6 +132,16 @@ func execC17a(sc c17aScenario) *vstat.Outcome {
 	for i := range cfg.Upstreams {
 		cfg.Upstreams[i].Servers = []config.UpstreamServerConfig{{Addr: c17aUp.URL()}}
 	}
+	cfg.Caches = append([]config.CacheConfig{}, cfg.Caches...)
+	stores := 0
+	for i := range cfg.Caches {
+		if strings.Contains(cfg.Caches[i].Store, "BADGER") {
+			cfg.Caches[i].Store = strings.Replace(cfg.Caches[i].Store, "BADGER", c17aBadgerDir(), 1)
+		}
+		if cfg.Caches[i].Store != "" {
+			stores++
+		}
+	}
 	if err := cfg.Validate(); err != nil {
 		out.Class("rejected_by_validate")
 		return out
@@ -156,6 +190,9 @@ func execC17a(sc c17aScenario) *vstat.Outcome {
 	out.NonTrivial = probes >= 2 && (quoting || len(cfg.Servers) >= 2)
 	out.Evals = probes
 	out.Class("applied")
+	if stores > 0 {
+		out.Class("cache_with_store_url")
+	}
 	return out
 }
 
